@@ -305,6 +305,46 @@ R2.update({
  "C07-10": ("/tmp/seeds10/F/3", "C07", "200 / single 206 whose entity stream yields Err or one extra chunk as the very next item after the last announced byte: poll_frame returns None as soon as is_end_stream() is true, the entity stream is never polled past the last byte", ["C20"]),
 })
 
+# round 11: property text and worktree only (no list of used ideas)
+R2.update({
+ "C18-16": ("/tmp/seeds11/J/1", "C18", "two or more streams of ONE ChunkedReadFile polled truly concurrently on different OS threads: pread replaced by seek + read on the shared file description, one thread's seek lands between another's seek and read (right count, wrong bytes)", []),
+ "C19-15": ("/tmp/seeds11/J/2", "C19", "auto_gzip + gzip preferred + the requested path itself ends in .gz and has no .gz.gz sibling: is_gzipped derived from the opened name's suffix, plain a.gz reported as gzip-encoded", []),
+ "C18-17": ("/tmp/seeds11/J/3", "C18", "a file whose mtime is BEFORE 1970 and not on a whole second: mtime rebuilt from mtime()/mtime_nsec() subtracts the nanoseconds, last_modified() off by 2 x nsec, ETag encodes a time the file never had", []),
+ "C15-14": ("/tmp/seeds11/E/1", "C15", "multipart HEAD on an entity of >= 10^19 bytes (20-digit positions or length): HEAD-only arithmetic digit count from an 18-entry power table, Content-Length short by one per 20-digit number", ["C06"]),
+ "C13-13": ("/tmp/seeds11/E/2", "C13", "extension method equal to GET / HEAD only case-insensitively (get, Head): method gate compares case-insensitively, served as GET (200, entity read, no Allow)", ["C15"]),
+ "C15-15": ("/tmp/seeds11/E/3", "C15", "streaming_body + HEAD + gzip preferred + with_gzip_level(0): HEAD site lost the level > 0 half, Content-Encoding: gzip on HEAD only", ["C17"]),
+ "C05-11": ("/tmp/seeds11/D/1", "C05", "If-Range equal to the strong ETag followed by a trailing comma and optional blanks (\"foo\", ): validated through the list parser, which swallows one trailing comma; 206", []),
+ "C05-12": ("/tmp/seeds11/D/2", "C05", "FAILED If-Range together with an entirely unsatisfiable Range: only satisfiable ranges are cancelled, 416 instead of the complete 200", ["C03"]),
+ "C06-16": ("/tmp/seeds11/D/3", "C06", "HISTORY on one thread: a multi-range request answered 413 (overflow) leaves its entity's rendered headers in a thread-local scratch buffer; the next multipart response on that thread prepends them to every part", ["C13", "C01"]),
+ "C04-16": ("/tmp/seeds11/C/1", "C04", "If-Modified-Since later than the Last-Modified second AND later than the system clock (no If-None-Match): 'date in the future is invalid' rule, 200 instead of 304", ["C14"]),
+ "C14-14": ("/tmp/seeds11/C/2", "C14", "entity whose add_headers appends two or more values under ONE name, on a 200 / single 206: merged through a vacant-entry check, later values dropped", ["C15"]),
+ "C04-17": ("/tmp/seeds11/C/3", "C04", "date condition in asctime format with a one-digit day (double space): whitespace normalised before parsing, 400", ["C13"]),
+ "C16-14": ("/tmp/seeds11/I/1", "C16", "an empty list element (gzip, / , gzip / gzip, , br): whole header counted unparseable, false", ["C17"]),
+ "C16-15": ("/tmp/seeds11/I/2", "C16", "a horizontal TAB in the optional whitespace directly after the ';' of a weighted element (gzip;\tq=1): only spaces trimmed there, element unparseable, false", ["C17"]),
+ "C17-13": ("/tmp/seeds11/I/3", "C17", "with_gzip_level(0) followed LATER by with_gzip_level(n > 0) on a request that prefers gzip: the setter folds 'level > 0' into should_gzip irreversibly, identity body although level n", ["C15"]),
+ "C03-17": ("/tmp/seeds11/B/1", "C03", "sum + 80n < L/2 but exact multipart length >= L (entity headers of > ~120 bytes repeated per part, mid-size L): falls back to a complete 200 where the statement requires multipart", ["C06"]),
+ "C02-11": ("/tmp/seeds11/B/2", "C02", "entity stream returns Pending exactly between its LAST chunk and its end: look-ahead poll with ready! drops the final chunk, clean end short", ["C01", "C07"]),
+ "C03-18": ("/tmp/seeds11/B/3", "C03", "a spec with first >= L and an UNPARSEABLE last-byte-pos (bytes=10-x, 10-2^64): skipped before its end is parsed, 416 / 206 of the other spec instead of the ignored-header 200", ["C13"]),
+})
+
+R2.update({
+ "C01-9": ("/tmp/seeds11/A/1", "C01", "multipart response where a range start, end-1 or the entity length is 10^k-1 or 10^k-2 for k = 15..19: length formula through f64 log10 counts one digit too many, Content-Length larger than delivered", ["C06", "C12"]),
+ "C07-11": ("/tmp/seeds11/A/2", "C07", "the entity stream delivers exactly the range, returns PENDING, and only then fails or yields an extra chunk: Pending at remaining == 0 taken for the end, clean end", ["C20", "C01"]),
+ "C01-10": ("/tmp/seeds11/A/3", "C01", "entity near 2^64 whose multipart total without the 9-byte trailer lands in 2^64-9 ..= 2^64-1: trailer added with a plain +, panic (checked build) / 206 with a wrapped Content-Length", ["C13", "C06"]),
+ "C09-14": ("/tmp/seeds11/G/1", "C09", "gzip level 1, incompressible data, SEVERAL medium writes each below 16 KiB (5 x 12000), then one flush: second flate2 flush only after a large single write, tail of the data not decodable after the flush", ["C08"]),
+ "C08-10": ("/tmp/seeds11/G/2", "C08", "chunk size >= 1024: write(a), flush, no poll, writes totalling EXACTLY chunk - a, flush: flush tops up the queued chunk, an exactly fitting remainder queues an empty frame", ["C12"]),
+ "C08-11": ("/tmp/seeds11/G/3", "C08", "16 or more chunks queued unread (>= 6 producer operations without a poll), then a partial write and flush: 'backlog' heuristic returns Ok without queueing, flushed bytes not available", ["C09", "C10"]),
+ "C10-18": ("/tmp/seeds11/H/1", "C10", "two or more chunks queued at one poll, writer dropped before the reader-local batch is drained, consumer consults is_end_stream() between frames (as hyper does): true while flushed chunks are undelivered", ["C12", "C08"]),
+ "C11-14": ("/tmp/seeds11/H/2", "C11", "body dropped, staging buffer empty, ONE write of at least two chunks: bulk path discards the data and returns Ok, the producer is never told", ["C08"]),
+ "C10-19": ("/tmp/seeds11/H/3", "C10", "writer drop-without-data or abort landing between the reader's unlock and re-lock around waker.clone() on its Pending path: terminal event not re-checked, consumer parks forever", ["C11"]),
+})
+
+R2.update({
+ "C12-16": ("/tmp/seeds11/F/1", "C12", "multipart GET on an entity whose length or a range position has 20 digits (>= 10^19): length computed ahead from an 18-entry power table, hint one short per 20-digit number, is_end_stream true early", ["C01", "C06"]),
+ "C12-17": ("/tmp/seeds11/F/2", "C12", "writer dropped before the consumer drains; queue front = partial flushed chunk + a small chunk that fits into its spare capacity + at least one chunk that does not: 'tail coalescing' forgets to subtract the absorbed bytes, lower bound too high", ["C08"]),
+ "C20-12": ("/tmp/seeds11/F/3", "C20", "multipart response, a failure in any part, consumer polls again (1-2 extra polls): error arm no longer clears the current part stream, stale stream polled, state runs past the end, index out of bounds", ["C06"]),
+})
+
 def sh(cmd, **kw):
     return subprocess.run(cmd, shell=True, capture_output=True, text=True, **kw)
 
